@@ -476,7 +476,7 @@ fn get_object_checked_body<const N: usize>() {
         Look::Malformed => assert_eq!(classify(&r), 2),
     }
     kani::cover!(matches!(expect, Look::Found(_, _)) && klen == 1);
-    kani::cover!(matches!(expect, Look::Found(s, _) if s >= 5));
+    kani::cover!(matches!(expect, Look::Found(s, _) if s >= 4));
     kani::cover!(expect == Look::NotFound && n == N);
     core::mem::forget(r);
     core::mem::forget(tmp);
@@ -502,6 +502,17 @@ fn m_get_object_checked_n8() {
 #[kani::stub(Parser::peek_invalid_type, cut_peek_invalid_type)]
 fn m_get_object_checked_n7() {
     get_object_checked_body::<7>();
+}
+
+#[kani::proof]
+#[kani::unwind(8)]
+#[kani::stub(crate::error::Error::syntax, crate::error::verif_kani_error::syntax_cut)]
+#[kani::stub(Parser::skip_space, model_skip_space)]
+#[kani::stub(Parser::skip_one, model_skip_one)]
+#[kani::stub(Parser::parse_string_raw, model_parse_string_raw)]
+#[kani::stub(Parser::peek_invalid_type, cut_peek_invalid_type)]
+fn m_get_object_checked_n6() {
+    get_object_checked_body::<6>();
 }
 
 #[kani::proof]
@@ -909,6 +920,16 @@ fn m_dom_object2_n7() {
     dom_object_body::<7>(false);
 }
 
+#[kani::proof]
+#[kani::unwind(8)]
+#[kani::stub(crate::error::Error::syntax, crate::error::verif_kani_error::syntax_cut)]
+#[kani::stub(Parser::skip_space, model_skip_space)]
+#[kani::stub(Parser::parse_string_owned, model_parse_string_owned)]
+#[kani::stub(Parser::parse_value2, model_parse_value2)]
+fn m_dom_object2_n6() {
+    dom_object_body::<6>(false);
+}
+
 /// C02/C03 M-dom-object (in-place driver)
 #[kani::proof]
 #[kani::unwind(10)]
@@ -928,6 +949,16 @@ fn m_dom_object_n8() {
 #[kani::stub(Parser::parse_value, model_parse_value)]
 fn m_dom_object_n7() {
     dom_object_body::<7>(true);
+}
+
+#[kani::proof]
+#[kani::unwind(8)]
+#[kani::stub(crate::error::Error::syntax, crate::error::verif_kani_error::syntax_cut)]
+#[kani::stub(Parser::skip_space, model_skip_space)]
+#[kani::stub(Parser::parse_string_inplace, model_parse_string_inplace)]
+#[kani::stub(Parser::parse_value, model_parse_value)]
+fn m_dom_object_n6() {
+    dom_object_body::<6>(true);
 }
 
 fn model_parse_number_visit<'de, R: Reader<'de>, V: JsonVisitor<'de>>(p: &mut Parser<R>, _first: u8, vis: &mut V) -> Result<()> {
@@ -1436,4 +1467,78 @@ fn m_get_object_unchecked_n9() {
     kani::cover!(matches!(found, Some((s, e)) if e - s >= 3));
     core::mem::forget(r);
     core::mem::forget(tmp);
+}
+
+// ---- padded reader (in-place DOM parse) -----------------------------------------------------------
+
+fn padded<const N: usize, const M: usize>(doc: &[u8; N]) -> [u8; M] {
+    // what Value::parse_with_padding builds: the document followed by `x"x` and zeros (64 bytes)
+    let mut b = [0u8; M];
+    let mut i = 0;
+    while i < N {
+        b[i] = doc[i];
+        i += 1;
+    }
+    b[N] = b'x';
+    b[N + 1] = b'"';
+    b[N + 2] = b'x';
+    b
+}
+
+/// C02/C01 U-trailing (padded reader): after the DOM parser consumed a value ending at `start`,
+/// `parse_trailing` accepts iff only whitespace lies between `start` and the end of the document
+/// - the `x"x` sentinel that begins exactly at `len` must stop the whitespace skipper and must
+/// not be reported as trailing characters - and reports EOF if the cursor already ran into the
+/// padding.
+#[kani::proof]
+#[kani::unwind(4)]
+#[kani::stub(crate::error::Error::syntax, crate::error::verif_kani_error::syntax_cut)]
+fn u_parse_trailing_padded_n6() {
+    const N: usize = 6;
+    const M: usize = N + 64;
+    let doc: [u8; N] = kani::any();
+    let mut buf = padded::<N, M>(&doc);
+    let start: usize = kani::any();
+    kani::assume(start <= N + 2);
+    let mut p = Parser::new(crate::reader::PaddedSliceRead::new(&mut buf[..]));
+    p.read.set_index(start);
+    let r = p.parse_trailing();
+    let only_ws = start <= N && ref_skip_ws(&doc, N, start) == N;
+    assert_eq!(r.is_ok(), only_ws);
+    kani::cover!(r.is_ok() && start < N);
+    kani::cover!(r.is_err() && start > N);
+    kani::cover!(r.is_err() && start < N);
+    core::mem::forget(r);
+}
+
+/// C01 K-padded-reader: cursor arithmetic of the unchecked padded reader (index, remain, at,
+/// peek, next_n, backward) for every cursor position inside the padded buffer.
+#[kani::proof]
+#[kani::unwind(4)]
+fn k_padded_reader_ops() {
+    const N: usize = 6;
+    const M: usize = N + 64;
+    let doc: [u8; N] = kani::any();
+    let mut buf = padded::<N, M>(&doc);
+    let snapshot = buf;
+    let idx: usize = kani::any();
+    kani::assume(idx <= M - 4);
+    let mut r = crate::reader::PaddedSliceRead::new(&mut buf[..]);
+    r.set_index(idx);
+    assert_eq!(r.index(), idx);
+    assert_eq!(r.remain(), if idx <= N { N - idx } else { 0 });
+    assert_eq!(r.as_u8_slice().len(), N);
+    assert_eq!(r.peek(), Some(snapshot[idx]));
+    assert_eq!(r.at(idx), snapshot[idx]);
+    let two = r.next_n(2).unwrap();
+    assert!(two[0] == snapshot[idx] && two[1] == snapshot[idx + 1]);
+    assert_eq!(r.index(), idx + 2);
+    r.backward(1);
+    assert_eq!(r.index(), idx + 1);
+    r.eat(2);
+    assert_eq!(r.index(), idx + 3);
+    let s = r.slice_unchecked(idx, idx + 3);
+    assert!(s.len() == 3 && s[2] == snapshot[idx + 2]);
+    kani::cover!(idx > N);
+    kani::cover!(idx == 0);
 }
